@@ -14,11 +14,10 @@ TYPES = [0x01, 0x01, 0x01, 0x02, 0x11, 0x12, 0xC0]
 
 
 def gen_repo(rng, n, first_zero=None):
-    ids = rng.sample(range(0, 0xFFFF), n)
+    # record ID 0000h addresses "the first record" in Get SDR, so only the first record may carry it
+    ids = rng.sample(range(1, 0xFFFF), n)
     if first_zero is True:
         ids[0] = 0
-    elif first_zero is False and ids[0] == 0:
-        ids[0] = 5
     recs = []
     for i in ids:
         t = rng.choice(TYPES)
